@@ -539,9 +539,32 @@ fn annotations_op(case: &Value) -> Result<Value> {
             }})
         }};
     }
+    macro_rules! run_like {
+        ($t:ty) => {{
+            let mut a = <$t>::default();
+            for s in &sets {
+                let v = &s[1];
+                match s[0].as_str().unwrap_or("") {
+                    "start" => a.set_start(chrono::DateTime::parse_from_rfc3339(v.as_str().unwrap_or(""))?.with_timezone(&chrono::Local)),
+                    "end" => a.set_end(chrono::DateTime::parse_from_rfc3339(v.as_str().unwrap_or(""))?.with_timezone(&chrono::Local)),
+                    "instance" => a.set_instance(ommx::ocipkg::Digest::new(v.as_str().unwrap_or(""))?),
+                    "solver" => a.set_solver(ommx::ocipkg::Digest::new(v.as_str().unwrap_or(""))?),
+                    "other" => a.set_other(v[0].as_str().unwrap_or("").to_string(), v[1].as_str().unwrap_or("").to_string()),
+                    k => bail!("setter {k}"),
+                }
+            }
+            json!({"ok": {
+                "start": a.start().ok().map(|d| d.timestamp_nanos_opt()), "end": a.end().ok().map(|d| d.timestamp_nanos_opt()),
+                "instance": a.instance().ok().map(|d| d.to_string()), "solver": a.solver().ok().map(|d| d.to_string()),
+                "map": ann_json(&a.clone().into_inner()),
+            }})
+        }};
+    }
     Ok(match ty {
         "instance" => common!(InstanceAnnotations),
         "parametric_instance" => common!(ParametricInstanceAnnotations),
+        "solution" => run_like!(SolutionAnnotations),
+        "sample_set" => run_like!(SampleSetAnnotations),
         _ => bail!("annotation type {ty}"),
     })
 }
